@@ -49,9 +49,11 @@ def poly1305_block(final):
         cell = Cell(st)
         msg = Cell(AggV(mb))
         vh, vr, r0 = val(h.f, 26), val(r.f, 26), [x.p for x in r.f]   # snapshots: the call mutates the context in place
+        R.native_in(20, [(x.p, 4) for x in r.f] + [(x.p, 4) for x in h.f] + [(b.p, 1) for b in mb] + [(DP.const(1 if final else 0), 1)])
         f = I.find_fn_re(r"^fn poly1305::<impl at src/poly1305\.rs:[^>]*>::block\(_1: &mut Poly1305, _2: &\[u8\]\)")
         I.run(f, [RefV(cell, ()), RefV(msg, (), (0, 16))])
         h2 = cell.v.f[1].f
+        R.native_out([x.p for x in h2])
         for i in range(5):
             R.range(h2[i].p, 0, hmax[i], "block: h'[%d] within the limb invariant I_h" % i)
         hib = 0 if final else (1 << 128)
@@ -83,9 +85,11 @@ def fe_limbs(v):
 def fe64_binop(fname, sig, op, in_hi=(LOOSE, LOOSE), out_hi=TIGHT):
     def spec(I, R):
         a, b = fe_in(I, "a", in_hi[0]), fe_in(I, "b", in_hi[1])
+        R.native_in({"add": 1, "sub": 2, "mul": 3}[op], [(x.p, 8) for x in fe_limbs(a)] + [(x.p, 8) for x in fe_limbs(b)])
         f = I.find_fn_re(FE64 + fname + sig)
         out = I.run(f, [ref(a), ref(b)])
         o = fe_limbs(out)
+        R.native_out([x.p for x in o])
         for i in range(5):
             R.range(o[i].p, 0, out_hi, "%s: output limb %d in class TIGHT" % (fname, i))
         va, vb = val(fe_limbs(a), 51), val(fe_limbs(b), 51)
@@ -97,6 +101,7 @@ def fe64_binop(fname, sig, op, in_hi=(LOOSE, LOOSE), out_hi=TIGHT):
 def fe64_unop(fname, sig, op, in_hi=LOOSE, out_hi=TIGHT, mutref=False):
     def spec(I, R):
         a = fe_in(I, "a", in_hi)
+        R.native_in(10 if mutref else {"neg": 4, "square": 5, "square2": 6, "mul121666": 7, "mul9": 0}[op], [(x.p, 8) for x in fe_limbs(a)])
         f = I.find_fn_re(FE64 + fname + sig)
         if mutref:
             c = Cell(a)
@@ -110,6 +115,7 @@ def fe64_unop(fname, sig, op, in_hi=LOOSE, out_hi=TIGHT, mutref=False):
             out = I.run(f, [ref(a)])
             o = fe_limbs(out)
             va = val(fe_limbs(a), 51)
+        R.native_out([x.p for x in o])
         for i in range(5):
             R.range(o[i].p, 0, out_hi, "%s: output limb %d within its class" % (fname, i))
         want = {"neg": -va, "square": va * va, "square2": (va * va).scale(2), "mul121666": va.scale(121666), "mul9": va.scale(9)}[op]
@@ -151,9 +157,11 @@ def fe64_from_bytes(I, R):
             b = I.input("s%d" % j, "u8", 0, 255)
             v = v + b.p.scale(1 << (8 * j))
         bs.append(b)
+    R.native_in(9, [(b.p, 1) for b in bs])
     f = I.find_fn_re(FE64 + r"from_bytes\(_1: &\[u8; 32\]\)")
     out = I.run(f, [ref(AggV(bs))])
     o = fe_limbs(out)
+    R.native_out([x.p for x in o])
     for i in range(5):
         R.range(o[i].p, 0, T51, "from_bytes: limb %d < 2^51" % i)
     R.equal(val(o, 51), v, "from_bytes: value == le256(bytes) mod 2^255 (bit 255 ignored)")
@@ -210,9 +218,11 @@ def fe32_binop(fname, sig, op, in_hi, out_hi):
     def spec(I, R):
         a, b = fe32_in(I, "a", in_hi), fe32_in(I, "b", in_hi)
         va, vb = val32(fe_limbs(a)), val32(fe_limbs(b))
+        R.native_in({"add": 1, "sub": 2, "mul": 3}[op], [(x.p, 8) for x in fe_limbs(a)] + [(x.p, 8) for x in fe_limbs(b)])
         f = I.find_fn_re(FE32 + fname + sig)
         out = I.run(f, [ref(a), ref(b)])
         o = fe_limbs(out)
+        R.native_out([x.p for x in o])
         for i in range(10):
             R.range(o[i].p, -out_hi[i], out_hi[i], "%s: output limb %d within its ref10 bound" % (fname, i))
         want = {"add": va + vb, "sub": va - vb, "mul": va * vb}[op]
@@ -224,9 +234,11 @@ def fe32_unop(fname, sig, op, in_hi, out_hi):
     def spec(I, R):
         a = fe32_in(I, "a", in_hi)
         va = val32(fe_limbs(a))
+        R.native_in({"neg": 4, "square": 5, "square2": 6, "mul121666": 7}[op], [(x.p, 8) for x in fe_limbs(a)])
         f = I.find_fn_re(FE32 + fname + sig)
         out = I.run(f, [ref(a)])
         o = fe_limbs(out)
+        R.native_out([x.p for x in o])
         for i in range(10):
             R.range(o[i].p, -out_hi[i], out_hi[i], "%s: output limb %d within its ref10 bound" % (fname, i))
         want = {"neg": -va, "square": va * va, "square2": (va * va).scale(2), "mul121666": va.scale(121666)}[op]
